@@ -1,6 +1,6 @@
 """C01-C05: the Adjust pipeline (Gen_Adjust -> replay on the real code -> Trace_Adjust)."""
 import json, os, time, collections
-import vlib
+import vlib, pipeline
 from vlib import log
 
 ALL_FIELDS = ["mem.limit", "mem.reservation", "mem.swap", "mem.kernel", "mem.kerneltcp", "mem.swappiness",
@@ -77,23 +77,6 @@ def mode_configs(prop, tier, sd):
     return cfgs
 
 
-def gen_one(args):
-    scratch, (name, mode, np_, nk, fields) = args
-    wd = os.path.join(scratch, "gen-" + name.replace("/", "_"))
-    cfg = ("SPECIFICATION GSpec\nCONSTANTS\n  Mode = \"%s\"\n  NP = %d\n  NK = %d\n  Fields = {%s}\n"
-           "INVARIANTS %s\nCHECK_DEADLOCK FALSE\n") % (
-        mode, np_, nk, ", ".join('"%s"' % f for f in fields), INVARIANTS)
-    rc, out = vlib.run_tlc(wd, "Gen_Adjust", cfg, workers=2, timeout=1800, java_opts="-Xmx3g -XX:ParallelGCThreads=2")
-    if "No error has been found" not in out:
-        if vlib.tlc_violation(out):
-            raise vlib.ToolFailure("design-level invariant violated in Gen_Adjust (%s): the specification itself "
-                                   "is inconsistent\n%s" % (name, vlib.tlc_error_excerpt(out, 60)))
-        raise vlib.ToolFailure("Gen_Adjust (%s) failed:\n%s" % (name, vlib.tlc_error_excerpt(out)))
-    cases = sorted(set(vlib.tlc_tagged(out, "CASE")))
-    gen, dist = vlib.tlc_counts(out)
-    return name, cases, gen, dist
-
-
 def label_sig(label, detail):
     """Signature of a rejection: label plus the fields/items that differ."""
     def flat(x):
@@ -125,127 +108,49 @@ def label_sig(label, detail):
     return label
 
 
+class Adjust(pipeline.Module):
+    name = "Adjust"
+    driver = "adjust"
+    invariants = INVARIANTS
+    assumptions = [
+        "the concretiser/projection layer (harness/abs) reads the wire conventions correctly",
+        "TLC bounds: see scenarios_per_mode; larger inputs are covered by sampled scenarios only",
+        "a plugin never writes the same item twice in one response (outside the generated domain)",
+    ]
+
+    def gen_configs(self, prop, tier, sd):
+        out = []
+        for name, mode, np_, nk, fields in mode_configs(prop, tier, sd):
+            out.append((name, '  Mode = "%s"\n  NP = %d\n  NK = %d\n  Fields = {%s}' % (
+                mode, np_, nk, ", ".join('"%s"' % f for f in fields))))
+        return out
+
+    def random_args(self, prop, tier, sd, out):
+        return ["adjust-gen", "-n", 30000 if tier == "thorough" else 4000, "-seed", sd, "-out", out]
+
+    def extra_traces(self, prop, tier, sd, exe, sc, scenarios):
+        # the same scenarios from 8 concurrent callers (several requests in flight)
+        step = 1 if tier == "thorough" else 3
+        sub = sc.path("conc.ndjson")
+        idx = list(range(sd % step, len(scenarios), step))
+        with open(sub, "w") as f:
+            f.write("\n".join(scenarios[i] for i in idx) + "\n")
+        tr = sc.path("trace-conc.ndjson")
+        vlib.run_driver(exe, ["adjust", "-in", sub, "-out", tr, "-seed", sd, "-conc", 8])
+        return [("conc", tr, idx)]
+
+    def label_sig(self, label, detail):
+        return label_sig(label, detail)
+
+    def nontrivial(self, s):
+        return '"k"' in s or '"target"' in s or '"res":{"' in s or '"ann":{"' in s
+
+    def rule(self):
+        return ("scenario = (request kind, original container / requested resources, one scripted response per "
+                "plugin); TLC enumerates every scenario of each small alphabet (per-mode counts in "
+                "scenarios_per_mode) incl. all prefixes, a seeded generator adds mixed-family scenarios with up to "
+                "6 plugins; non-trivial = at least one plugin writes something; distinct = distinct scenario records")
+
+
 def run(prop, tier, replay=None):
-    t0 = time.time()
-    sd = vlib.seed()
-    with vlib.Scratch() as sc:
-        exe = vlib.build_driver(sc.dir)
-        scen_file = sc.path("scenarios.ndjson")
-        mc_states = mc_trans = 0
-        per_mode = {}
-        if replay:
-            with open(scen_file, "w") as f:
-                f.write(json.dumps(json.load(open(replay))["scenario"]) + "\n")
-        else:
-            cfgs = mode_configs(prop, tier, sd)
-            log("[%s] TLC: %d Gen_Adjust configurations (model checking + scenario emission)" % (prop, len(cfgs)))
-            results = vlib.pmap(gen_one, [(sc.dir, c) for c in cfgs], workers=7)
-            with open(scen_file, "w") as f:
-                for name, cases, gen, dist in results:
-                    mc_trans += gen
-                    mc_states += dist
-                    per_mode[name] = len(cases)
-                    for c in cases:
-                        f.write(c + "\n")
-            # random scenarios outside the small scope
-            nrand = 30000 if tier == "thorough" else 4000
-            rnd = sc.path("random.ndjson")
-            vlib.run_driver(exe, ["adjust-gen", "-n", nrand, "-seed", sd, "-out", rnd])
-            with open(scen_file, "a") as f:
-                f.write(open(rnd).read())
-            per_mode["random"] = nrand
-        scenarios = open(scen_file).read().splitlines()
-        log("[%s] replaying %d scenarios on the real code (sequential callers)" % (prop, len(scenarios)))
-        trace = sc.path("trace.ndjson")
-        _, out, _ = vlib.run_driver(exe, ["adjust", "-in", scen_file, "-out", trace, "-seed", sd])
-        dstats = json.loads(out.strip().splitlines()[-1])
-        traces = [("seq", trace)]
-        if not replay:
-            # the same scenarios from concurrent callers (several requests in flight)
-            trace2 = sc.path("trace-conc.ndjson")
-            sub = sc.path("conc.ndjson")
-            step = 1 if tier == "thorough" else 3
-            with open(sub, "w") as f:
-                f.write("\n".join(scenarios[sd % step::step]) + "\n")
-            _, out2, _ = vlib.run_driver(exe, ["adjust", "-in", sub, "-out", trace2, "-seed", sd, "-conc", 8])
-            traces.append(("conc", trace2))
-            conc_index = list(range(sd % step, len(scenarios), step))
-        # validate
-        bad_all = []
-        tstats = collections.Counter()
-        nlines = 0
-        for tname, tr in traces:
-            shards = vlib.split_file(tr, 12, sc.sub("shards-" + tname))
-            def val(sh):
-                return vlib.validate_trace(sh + ".tlc", "Adjust", sh, java_opts="-Xmx3g -XX:ParallelGCThreads=2")
-            # scenario numbers are global (scn field), so shards need no renumbering
-            for stats, bad, n in vlib.pmap(val, shards, workers=6):
-                for k, v in stats.items():
-                    tstats[k] += v
-                nlines += n
-                for b in bad:
-                    b["trace"] = tname
-                    bad_all.append(b)
-        # rejections relevant to this property
-        rejections = []
-        other = collections.Counter()
-        for b in bad_all:
-            for lab in b["labels"]:
-                if lab.startswith(prop + "-") or prop == "ADJ":
-                    idx = b["scn"] - 1
-                    if b["trace"] == "conc":
-                        idx = conc_index[idx]
-                    rejections.append({"sig": label_sig(lab, b["detail"]), "label": lab, "scn": idx,
-                                       "trace": b["trace"], "detail": b["detail"]})
-                else:
-                    other[lab.split("-")[0]] += 1
-        # one replay file per signature (first scenario showing it)
-        first = {}
-        for r in rejections:
-            first.setdefault(r["sig"], r)
-        for sig, r in first.items():
-            path = vlib.save_replay(prop, sig.replace("/", "_").replace(":", "_").replace("+", "_")[:80],
-                                    {"property": prop, "signature": sig, "label": r["label"], "detail": r["detail"],
-                                     "mode": r["trace"], "scenario": json.loads(scenarios[r["scn"]]),
-                                     "replay_cmd": "./check %s --replay <this file>" % prop})
-            r["replay"] = path
-        for r in rejections:
-            r["replay"] = first[r["sig"]]["replay"]
-            r["text"] = "%s detail=%s" % (r["label"], json.dumps(r["detail"])[:200])
-        if prop == "ADJ":
-            for sig, n in collections.Counter(r["sig"] for r in rejections).most_common():
-                log("  %6d  %s" % (n, sig))
-        nviol = vlib.verdict(prop, rejections)
-        if other:
-            log("[%s] note: rejections carrying other properties' labels in this run: %s" % (prop, dict(other)))
-        nontrivial = sum(1 for s in scenarios if '"k"' in s or '"target"' in s or '"res":{"' in s)
-        samples = []
-        for i in (0, len(scenarios) // 2, len(scenarios) - 1):
-            if 0 <= i < len(scenarios):
-                samples.append(json.loads(scenarios[i]))
-        cov = {
-            "states": max(mc_states, 1), "transitions": max(mc_trans, 1),
-            "traces_validated_against_impl": int(tstats.get("scenarios", 0)),
-            "samples": samples[:3],
-            "evaluations": len(scenarios), "distinct_nontrivial": len(set(scenarios)),
-            "rule": "scenario = (request kind, original container / requested resources, one scripted response per "
-                    "plugin); TLC enumerates every scenario of each small alphabet (per-mode counts below) incl. all "
-                    "prefixes, a seeded generator adds mixed-family scenarios with up to 6 plugins; distinct = "
-                    "distinct scenario records",
-            "scenarios_per_mode": per_mode,
-            "trace_events_validated": nlines,
-            "validation_outcomes": {k: int(v) for k, v in tstats.items() if k != "tlc_states"},
-            "trace_spec_states": int(tstats.get("tlc_states", 0)),
-            "rejections_for_this_property": len(rejections),
-            "known_finding_signatures": sorted(set(r["sig"] for r in rejections)),
-            "exhaustive": False,
-            "checker_cmd": "tlc Gen_Adjust (INVARIANTS %s); driver adjust; tlc Trace_Adjust" % INVARIANTS,
-        }
-        vlib.write_evidence(prop, tier, "model_checking", cov, time.time() - t0, nviol, [
-            "the concretiser/projection layer (harness/abs) reads the wire conventions correctly",
-            "TLC bounds: see scenarios_per_mode; larger inputs are covered by sampled scenarios only",
-            "a plugin never writes the same item twice in one response (outside the generated domain)",
-        ])
-        log("[%s] %s: %d scenarios (%d TLC states), %d trace events validated, %d rejections for %s, %d unlisted; %.0fs"
-            % (prop, tier, len(scenarios), mc_states, nlines, len(rejections), prop, nviol, time.time() - t0))
-        return 1 if nviol else 0
+    return pipeline.run(Adjust(), prop, tier, replay, dev=(prop == "ADJ"))
